@@ -41,7 +41,7 @@ RULE = (
     "scale_tril / TrilExpDiagonal / covariance / precision), the objective (ELBO Monte-Carlo, analytic entropy, "
     "multi-sample; VR(alpha); CUBO(n); KLpq) with samples S, [S] or [S,K], the torch seed, an optional "
     "`samples=` override for the second request, how each hyper-parameter of the prior / likelihood is written (bare JSON "
-    "number, list, or Parameter object; drawn per hyper-parameter) and the process default dtype (float64, or float32 "
+    "number, list, or Parameter object; drawn per hyper-parameter) and the process default dtype (float64 as torchtree's main() sets it, or - library use - torch's float32 default "
     "with every Parameter carrying \"dtype\": \"torch.float64\"; restored after the case). Sub-check 'exact' sets q to the closed-form posterior, "
     "'pairing' draws arbitrary q parameters; 'grid' enumerates objective x sample-shape form x family x route; 'dtype' enumerates family x route x objective "
     "x hyper-parameter form x default dtype with hyper-parameters that float32 cannot represent. "
@@ -63,7 +63,10 @@ ASSUMPTIONS = [
     "either the estimator over all S*K draws or the mean over S of the K-draw estimators",
     "whether the draws are distributed according to q is not observable through the objective's value and is "
     "not asserted (a mutation that mis-assigns slices in CatParameter's setter leaves value and draws consistent)",
-    "under a float32 default dtype the model is float64 through the documented `dtype` attribute of its Parameters; "
+    "the float32-default route is library use (torchtree's main() sets the default dtype, float64 unless --dtype; an API "
+    "user and the repository's tests keep torch's float32 default): the model is float64 through the documented `dtype` "
+    "attribute of its Parameters; a dtype-mismatch error under that mixture is a clean rejection (label dtype-rejected), "
+    "not a violation; "
     "CUBO keeps its order n as a tensor of the default dtype, so the chi bound of order float32(n) is accepted as well",
     "tolerance 1e-9 * max(1, |expected|, 1e-3 * max|log p|) ; alpha of VR stays 0.05 away from 1 "
     "(division by 1-alpha), hyper-parameters bounded so that densities stay finite in float64",
@@ -495,41 +498,31 @@ def _fail_once(res, kind, detail, **tags):
         res.fail(kind, detail, **tags)
 
 
-def _explicit_f64(x):
-    """every Parameter of the specification says "dtype": "torch.float64" (the documented JSON attribute)"""
-    if isinstance(x, list):
-        for v in x:
-            _explicit_f64(v)
-    elif isinstance(x, dict):
-        if x.get("type") == "Parameter":
-            x["dtype"] = "torch.float64"
-        for v in x.values():
-            _explicit_f64(v)
-
-
 def _f32_log(k):
     """log K rounded the way a float32 default dtype rounds it (classification of a known finding only)"""
     return float(torch.tensor(float(k), dtype=torch.float32).log().item())
 
 
 def body(c):
-    """route f32: the process default dtype is float32 (a library user who never called
-    torch.set_default_dtype, or `torchtree --dtype float32`) while the model is float64 through the
-    explicit dtype of its Parameters; the default is restored whatever happens"""
+    """route f32: library use - torch's default dtype stays float32 (torchtree's own main() sets it, float64
+    unless --dtype says otherwise; an API user and the repository's tests do not) while the model is float64
+    through the explicit dtype of its Parameters; the default is restored whatever happens"""
     tt.load_all()  # imports (and the float64 default they are made under) happen before the switch
-    old = torch.get_default_dtype()
-    try:
-        torch.set_default_dtype(torch.float32 if c.get("f32") else torch.float64)
+    with tt.default_dtype(torch.float32 if c.get("f32") else torch.float64):
         return _body(c)
-    finally:
-        torch.set_default_dtype(old)
+
+
+def _dtype_rejection(exc):
+    """a dtype-mismatch error under the float32-default / float64-Parameter mixture is a clean rejection"""
+    msg = str(exc)
+    return isinstance(exc, (RuntimeError, TypeError)) and any(w in msg for w in ("dtype", "Float", "Double", "scalar type"))
 
 
 def _body(c):
     torch.manual_seed(int(c["torch_seed"]))
     m = Model(c)
     if c.get("f32"):
-        _explicit_f64(m.spec)
+        m.spec = tt.explicit64(m.spec)
     o = c["objective"]
     tags = pretags(c)
     ss0 = _sshape(o["samples"])
@@ -545,7 +538,13 @@ def _body(c):
         + tuple("route:" + b["route"] for b in c["blocks"]),
         tags=tags,
     )
-    _, dic = tt.build(m.spec)
+    built, exc = guarded(tt.build, m.spec)
+    if exc is not None:
+        if c.get("f32") and _dtype_rejection(exc):
+            res.labels += ("dtype-rejected",)
+            return res
+        raise exc
+    dic = built[1]
     obj = dic["obj"]
     log_z = m.log_z()
     sids = [blk.sid for blk in m.blocks]
@@ -563,6 +562,9 @@ def _body(c):
         with torch.no_grad():
             v, exc = guarded(obj, **kw)
         if exc is not None:
+            if c.get("f32") and _dtype_rejection(exc):
+                res.labels += ("dtype-rejected",)
+                return res
             res.fail(raises_kind(exc), dict(request=req, samples=ss, message=str(exc)[:300]), **rt)
             return res
         val = _scalar(v)
